@@ -8,6 +8,7 @@ from . import c11
 
 PROP = "C13"
 LEVEL = "exploration"
+ANCHORS = ["from_file"]  # functions whose reached lines are reported in the evidence
 RULE = (
     "cases = (kind, parameter set P, optional limits L) for all 11 kinds: random subsets of the optional keys, "
     "scalar / list / table values, int and float literals (arrays written homogeneously), [limits] present / "
